@@ -130,7 +130,7 @@ def run(tier, seed, replay):
                      (flags["key_expr"], flags["guard_expr"], flags["name_expr"]) +
                      "".join("; UNRECOGNISED: " + u for u in flags["unrecognised"]))
     inproc = common.build_inproc()
-    st = common.check_proofs(chk, "C13", extra_dirs=("Gen",))
+    st = common.check_proofs(chk, "C13")       # (Gen/C13Flags.v is built as a dependency; other properties' Gen files are not ours to scan)
     ku, gu, nu = ("true" if flags[k] else "false" for k in ("key_unraw", "guard_unraw", "name_unraw"))
 
     maxlen = 4 if tier == "quick" else 5
@@ -244,7 +244,11 @@ def run(tier, seed, replay):
         for u in ctl:
             src = G.enum_item(u[1]) if u[0] == "enum" else "#[derive(FromStr)] " + u[1][1]
             diags = failed[unit_id(u)]
-            chk.violation("expansion-rejected", {"case": u[1] if u[0] == "enum" else None, "rust": src, "rustc": [(a, b) for a, b, _ in diags][:6],
+            codes = set(a for a, _, _ in diags)
+            cls = "expansion-captures-variant-name" if (u[0] == "enum" and u[1].get("glob") and
+                                                        codes & {"E0618", "E0423", "E0532", "E0574", "E0530", "E0164"}) \
+                else "expansion-rejected"
+            chk.violation(cls, {"case": u[1] if u[0] == "enum" else None, "rust": src + ("\npub use self::%s::*;" % G.ident_src(u[1]["enum"]) if u[0] == "enum" and u[1].get("glob") else ""), "rustc": [(a, b) for a, b, _ in diags][:6],
                                                  "expected": "the expansion compiles (rustc accepts the type itself)"},
                           "FromStr expansion of a valid type does not compile: %s: %s" % (src.replace("\n", " "), "; ".join(str(b) for _, b, _ in diags[:2])))
     cases_all = cases
